@@ -30,7 +30,7 @@ def run_lines(inst, rng_sched, frames):
         lines.append('gb.btn %d %d %d' % (inst, btn, pressed))
     if frames > f:
         lines.append('gb.frames %d %d' % (inst, frames - f))
-    lines += ['gb.obs %d' % inst, 'gb.pix %d' % inst, 'gb.audio %d' % inst, 'gb.serial %d' % inst, 'gb.dump %d' % inst,
+    lines += ['gb.obs %d' % inst, 'gb.pix %d' % inst, 'gb.audio %d' % inst, 'gb.audiobits %d' % inst, 'gb.serial %d' % inst, 'gb.dump %d' % inst,
               'gb.rr %d 49152 49407' % inst, 'gb.rr %d 65408 65535' % inst, 'gb.rr %d 65328 65343' % inst]
     return lines
 
@@ -81,7 +81,7 @@ def generate(rng, tier):
             for a in (0xff14, 0xff19, 0xff1e, 0xff23):
                 lines.append('gb.w %d %d %d' % (inst, a, 0x80 | r2.randrange(8)))
             for _ in range(4):
-                lines += ['gb.frames %d %d' % (inst, r2.randrange(1, 4)), 'gb.audio %d' % inst,
+                lines += ['gb.frames %d %d' % (inst, r2.randrange(1, 4)), 'gb.audio %d' % inst, 'gb.audiobits %d' % inst,
                           'gb.w %d %d %d' % (inst, r2.choice([0xff14, 0xff19, 0xff1e, 0xff23, 0xff25, 0xff24]), r2.randrange(256))]
             lines += ['gb.obs %d' % inst]
         cases.append(('sound%d' % i, lines))
@@ -136,6 +136,12 @@ def generate(rng, tier):
     return cases, info
 
 
+def project_case(cid, lines):
+    """the exact float32 bits of the samples exist only in the implementation: hidden from the comparison with the model
+    (which compares round(6400*sample)); extra() compares them between runs of the implementation"""
+    return [('audiobits *' if l.startswith('audiobits ') and l != 'audiobits none' else l) for l in lines]
+
+
 def nontrivial(cid, lines, impl):
     if impl and len(impl) >= 8:
         return cid
@@ -152,21 +158,26 @@ def judge(case, impl, model):
 
 def extra(check, ci, cm, cases):
     viol = []
+    # two fresh processes, raw output (incl. the float32 bit digests of the audio stream)
+    path = verifkit.BUILD + '/scripts/C24.txt'
+    rc, out, err = verifkit.run_runner(verifkit.BUILD + '/impl_runner', path)
+    raw1, _ = verifkit.split_cases(out)
+    rc, out, err = verifkit.run_runner(verifkit.BUILD + '/impl_runner', path)
+    raw2, _ = verifkit.split_cases(out)
     # in-process: the two instances of every case must agree line by line
     for cid, lines in cases:
         if cid.startswith('reuse'):   # also 'reuse_path'
             continue                      # not a pair of identical runs
-        o = ci.get(cid) or []
+        o = raw1.get(cid) or []
         h = len(o) // 2
         if o[:h] != o[h:]:
             viol.append(dict(case=cid, script=lines, impl=o[:h], model=o[h:],
                              verdict='two runs of the same ROM and schedule in one process differ'))
-    # a fresh process
-    path = verifkit.BUILD + '/scripts/C24.txt'
-    rc, out, err = verifkit.run_runner(verifkit.BUILD + '/impl_runner', path)
-    c2, _ = verifkit.split_cases(out)
     for cid, lines in cases:
-        if c2.get(cid) != ci.get(cid):
-            viol.append(dict(case=cid, script=lines, impl=ci.get(cid), model=c2.get(cid),
+        if project_case(cid, raw1.get(cid) or []) != (ci.get(cid) or []):
+            viol.append(dict(case=cid, script=lines, impl=ci.get(cid), model=raw1.get(cid),
                              verdict='a run in a second process differs from the run in the first process'))
+        elif raw1.get(cid) != raw2.get(cid):
+            viol.append(dict(case=cid, script=lines, impl=raw1.get(cid), model=raw2.get(cid),
+                             verdict='runs in two fresh processes differ (exact sample bits included)'))
     return viol[:5]
